@@ -22,7 +22,7 @@ def gen_def(rng):
     cfg["default_bit_order"] = rng.choice([None, None, "LSB0", "MSB0"])
     objs = []
     for i in range(rng.choice([1, 2, 3])):
-        size = rng.choice([1, 3, 7, 8, 9, 12, 16, 16, 24, 32, 40, 64, 100, 128])
+        size = rng.choice([1, 3, 7, 8, 9, 12, 16, 16, 24, 32, 40, 48, 56, 64, 72, 100, 120, 128])
         bo = rng.choice([None, "LE", "BE"])
         bi = rng.choice([None, "LSB0", "MSB0", "MSB0"])
         if bo is None and cfg["default_byte_order"] is None and size > 8:
@@ -40,8 +40,11 @@ def gen_def(rng):
                 fields.append(adef.mk_field(FN[len(fields)], "bool", s, rng.choice([None, e])))
             else:
                 fields.append(adef.mk_field(FN[len(fields)], rng.choice(["uint", "uint", "int"]), s, e))
-        if not fields:
-            fields = [adef.mk_field("alpha", "uint", 0, size)]
+        if not fields or rng.random() < 0.2:
+            # ONE field over the whole set (a carrier wider than the set when the size is 24, 40, 48 .. bits): nothing to
+            # preserve, but the value's bytes must still land where the byte order says (seed C02-6 copied the first N
+            # bytes of to_be_bytes())
+            fields = [adef.mk_field("alpha", rng.choice(["uint", "uint", "int"]), 0, size)]
         allow = None
         if size >= 4 and len(fields) < len(FN) and rng.random() < 0.3:
             # a field that OVERLAPS an existing one: partial, enclosing it, inside it, or equal; declared before or after it.
@@ -105,8 +108,19 @@ def run_gen_phase(ctx):
     rng = random.Random(ctx.seed * 5 + 2)
     nd = 20 if ctx.tier == "quick" else 150
     cases, defs = [], {}
-    for i in range(nd):
-        d = gen_def(rng)
+    # a fixed family first: ONE field over the whole set, for every byte-multiple size that is not a carrier size (and two
+    # that are), both byte orders and bit orders, unsigned and signed — three registers per definition
+    whole = [(sz, bo, bi, base) for sz in (24, 40, 48, 56, 72, 120, 16, 64) for bo in ("LE", "BE") for bi in ("LSB0", "MSB0")
+             for base in ("uint", "int")]
+    fixed = []
+    for k in range(0, len(whole), 3):
+        objs = [adef.mk_register(["Ra", "Rb", "Rc"][j], j, sz, [adef.mk_field("alpha", base, 0, sz)], byte_order=bo, bit_order=bi)
+                for j, (sz, bo, bi, base) in enumerate(whole[k:k + 3])]
+        fixed.append({"config": adef.mk_config(register_address_type="u16"), "objects": objs})
+    if ctx.tier == "quick":
+        fixed = fixed[ctx.seed % 2::2]          # half of the family per quick run (the thorough tier runs all of it)
+    for i in range(nd + len(fixed)):
+        d = fixed[i] if i < len(fixed) else gen_def(rng)
         cid = f"q{i}"
         defs[cid] = d
         syntax = rng.choice(["dsl", "dsl", "json"])
